@@ -30,7 +30,7 @@ Headline theorems (namespace `Cv.Rounding5`; structure lemmas `*_pert` in `Lemma
   `extrapolate_cancellation`: no bound relative to the exact value exists
 * C17 `logit_error` (uf·|logit p| + (1+uf)·γ₂), `boxcox_zero_error`, `boxcox_error`
   (γ₂·|bc| + (1+γ₂)·uf·x^λ/|λ|), `boxcoxShifted_eq`
-* C20 `rbf_near` / `rbf_error` / `rbf_error_explicit` / `rbf_pos`, `rq_near` / `rq_error` / `rq_pos`
+* C20 `rbf_near` / `rbf_error` / `rbf_error_explicit` / `rbf_pos_stdmodel`, `rq_near` / `rq_error` / `rq_pos_stdmodel`
         c·K ≤ K̂ ≤ K/c,  c = e^{−γ₉A}(1−uf)(1−u)  (RBF, A = (x−y)²/(2ℓ²)),  c = ((1−u)¹¹)^α(1−uf)(1−u)  (RQ)
 * C08 `onepass_error` (γ_{n+6}·Σ|dxᵢdyᵢ| + γ_{2n+8}·(Σ|dxᵢ|)(Σ|dyᵢ|)/n, all over n−1),
   `onepass_exact_eq_comoment`; `online_error_partial` (structure of the online algorithm relative to
@@ -366,10 +366,10 @@ theorem rbf_error [ExpLnStd M] [PowStd M] (k : Gp.RBF (Fl M)) (x y : Fl M) (hv :
 /-- **RBF kernel, sign**: the computed value is positive (variance `> 0` as the constructor asserts) IN THE
 IDEALISED MODEL.  PROVISO: `ExpLnStd` is an idealisation — no IEEE `exp` has relative error `≤ uf` below `−745.13` (underflow) or above `709.78` (overflow); at binary64 the computed value can be exactly `0` there.  The underflow-aware variants are in namespace `Cv.Rounding3U` (class `ExpLnUfl`).  (at binary64, `RBF(σ²=1, ℓ=0.01)(1000, −1000) = 0`; `Rounding3U.rbf_range_ufl`:
 `0 ≤ k̂ ≤ σ²(1+u)`.) -/
-theorem rbf_pos [ExpLnStd M] [PowStd M] (k : Gp.RBF (Fl M)) (x y : Fl M) (hv : 0 < k.var.val) :
+theorem rbf_pos_stdmodel [ExpLnStd M] [PowStd M] (k : Gp.RBF (Fl M)) (x y : Fl M) (hv : 0 < k.var.val) :
     0 < (k.fwd x y).val := by
   rw [rbf_unfold]
-  exact Rounding2.rnd_pos_of_pos (mul_pos (expR_pos _) hv)
+  exact Rounding2.rnd_pos_of_pos (mul_pos (expR_pos_stdmodel _) hv)
 
 /-- **rational-quadratic kernel**: the computed value is within the factor
 `c = ((1−u)¹¹)^α·(1−uf)(1−u)` of `σ²·(1 + (x−y)²/(2αℓ²))^{−α}`. -/
@@ -413,7 +413,7 @@ theorem rq_error [ExpLnStd M] [PowStd M] (k : Gp.RQ (Fl M)) (x y : Fl M) (hv : 0
 
 /-- **rational-quadratic kernel, sign** (idealised model; with an underflowing `powf` only `0 ≤ k̂`:
 `Rounding3U.rq_nonneg_ufl`) -/
-theorem rq_pos [ExpLnStd M] [PowStd M] (k : Gp.RQ (Fl M)) (x y : Fl M) (hv : 0 < k.var.val)
+theorem rq_pos_stdmodel [ExpLnStd M] [PowStd M] (k : Gp.RQ (Fl M)) (x y : Fl M) (hv : 0 < k.var.val)
     (hα : 0 ≤ k.alpha.val) : 0 < (k.fwd x y).val := by
   have nb := rqBase_near k x y hα
   have hA0 := rqArg_nonneg k x y hα
@@ -809,13 +809,13 @@ example : ∃ v, boxcox (⟨2⟩ : Fl Minf) ⟨2⟩ = some v ∧
       Minf.γ 2 * |((2 : ℝ) ^ (2 : ℝ) - 1) / 2| + (1 + Minf.γ 2) * (uF Minf * (2 : ℝ) ^ (2 : ℝ) / |(2 : ℝ)|) :=
   boxcox_error (⟨2⟩ : Fl Minf) ⟨2⟩ (by norm_num) (by norm_num) (by rw [Minf_u]; norm_num)
 
-/-- `rbf_near`, `rbf_error_explicit`, `rbf_pos` for `σ² = 2`, `ℓ = 1`, `x − y = 1` (`A = ½`): `9·u < 1` -/
+/-- `rbf_near`, `rbf_error_explicit`, `rbf_pos_stdmodel` for `σ² = 2`, `ℓ = 1`, `x − y = 1` (`A = ½`): `9·u < 1` -/
 example : Near (Real.exp (-(Minf.γ 9 * rbfArg (⟨⟨2⟩, ⟨1⟩⟩ : Gp.RBF (Fl Minf)) ⟨1⟩ ⟨0⟩)) * ((1 - uF Minf) * (1 - Minf.u)))
     (rbfExact (⟨⟨2⟩, ⟨1⟩⟩ : Gp.RBF (Fl Minf)) ⟨1⟩ ⟨0⟩) ((⟨⟨2⟩, ⟨1⟩⟩ : Gp.RBF (Fl Minf)).fwd ⟨1⟩ ⟨0⟩).val :=
   rbf_near _ _ _ (by norm_num) (by rw [Minf_u]; norm_num)
 example : rbfArg (⟨⟨2⟩, ⟨1⟩⟩ : Gp.RBF (Fl Minf)) ⟨1⟩ ⟨0⟩ = 1 / 2 := by
   simp [rbfArg]
-example : 0 < ((⟨⟨2⟩, ⟨1⟩⟩ : Gp.RBF (Fl Minf)).fwd ⟨1⟩ ⟨0⟩).val := rbf_pos _ _ _ (by norm_num)
+example : 0 < ((⟨⟨2⟩, ⟨1⟩⟩ : Gp.RBF (Fl Minf)).fwd ⟨1⟩ ⟨0⟩).val := rbf_pos_stdmodel _ _ _ (by norm_num)
 example : |((⟨⟨2⟩, ⟨1⟩⟩ : Gp.RBF (Fl Minf)).fwd ⟨1⟩ ⟨0⟩).val - rbfExact (⟨⟨2⟩, ⟨1⟩⟩ : Gp.RBF (Fl Minf)) ⟨1⟩ ⟨0⟩| ≤
     (1 / ((1 - Minf.γ 9 * rbfArg (⟨⟨2⟩, ⟨1⟩⟩ : Gp.RBF (Fl Minf)) ⟨1⟩ ⟨0⟩) * ((1 - uF Minf) * (1 - Minf.u))) - 1)
       * rbfExact (⟨⟨2⟩, ⟨1⟩⟩ : Gp.RBF (Fl Minf)) ⟨1⟩ ⟨0⟩ := by
@@ -824,13 +824,13 @@ example : |((⟨⟨2⟩, ⟨1⟩⟩ : Gp.RBF (Fl Minf)).fwd ⟨1⟩ ⟨0⟩).val
   rw [this]
   unfold FlModel.γ; rw [Minf_u]; norm_num
 
-/-- `rq_near`, `rq_pos` for `σ² = 2`, `α = 1`, `ℓ = 1` -/
+/-- `rq_near`, `rq_pos_stdmodel` for `σ² = 2`, `α = 1`, `ℓ = 1` -/
 example : Near (((1 - Minf.u) ^ 11) ^ (1 : ℝ) * ((1 - uF Minf) * (1 - Minf.u)))
     (rqExact (⟨⟨2⟩, ⟨1⟩, ⟨1⟩⟩ : Gp.RQ (Fl Minf)) ⟨1⟩ ⟨0⟩)
     ((⟨⟨2⟩, ⟨1⟩, ⟨1⟩⟩ : Gp.RQ (Fl Minf)).fwd ⟨1⟩ ⟨0⟩).val :=
   rq_near (⟨⟨2⟩, ⟨1⟩, ⟨1⟩⟩ : Gp.RQ (Fl Minf)) ⟨1⟩ ⟨0⟩ (by norm_num) (by norm_num)
 example : 0 < ((⟨⟨2⟩, ⟨1⟩, ⟨1⟩⟩ : Gp.RQ (Fl Minf)).fwd ⟨1⟩ ⟨0⟩).val :=
-  rq_pos (⟨⟨2⟩, ⟨1⟩, ⟨1⟩⟩ : Gp.RQ (Fl Minf)) ⟨1⟩ ⟨0⟩ (by norm_num) (by norm_num)
+  rq_pos_stdmodel (⟨⟨2⟩, ⟨1⟩, ⟨1⟩⟩ : Gp.RQ (Fl Minf)) ⟨1⟩ ⟨0⟩ (by norm_num) (by norm_num)
 
 /-- the `f64` hypotheses on the library functions are satisfiable -/
 example : ∃ (M : FlModel) (_ : ExpLnStd M) (_ : PowStd M), M.u = 1 / 2 ^ 53 ∧ uF M = 1 / 2 ^ 52 := by
